@@ -1,6 +1,6 @@
 (* C13 — wrappers.decorator / wrapper_decorator / Combination are call-transparent. *)
 From Sigtools.Model Require Import Base Bind Roles Algebra Wrappers.
-From Sigtools.Proofs Require Import SmallModel Basics Wrappers.
+From Sigtools.Proofs Require Import SmallModel Basics Wrappers ForwardsSound MergeSoundN RcValidN WrappersSound.
 
 (* Full statement, which the pinned tree violates (known finding C13:self-keyword):
      forall ls f, call (stack ls f) = compose (map snd ls) (call f).
@@ -109,3 +109,55 @@ Theorem C13_inspect_sig_wf o r :
   top_valid o = true -> inspect_sig o = Ok r -> validate (params r) = true.
 Proof. exact (inspect_sig_wf o r). Qed.
 Print Assumptions C13_inspect_sig_wf.
+
+(* ---- acceptance soundness for stacks of any depth and for Combination, lifted onto the general theorems
+   (C04_exec_sound per layer, merge soundness for Combination; Proofs/WrappersSound.v); the known findings'
+   witnesses fall outside the hypotheses (refutations) ---- *)
+Theorem C13_stack_sig_valid : forall (ls : list layer) (s r : sigT), Forall layer_ok ls -> valid_sig (params s) = true -> stack_sig ls s = Ok r -> valid_sig (params r) = true.
+Proof. exact @WrappersSound.stack_sig_valid. Qed.
+Print Assumptions C13_stack_sig_valid.
+
+Theorem C13_generic_partial_exact : forall (w : wrapperT) (q : sigT) (c : Bind.call), valid_sig (params (w_sig w)) = true -> generic_partial w = Ok q -> noncolliding c (params q) [params (w_sig w)] = true -> accepts (params q) c = accepts (params (w_sig w)) (succ_call c).
+Proof. exact @WrappersSound.generic_partial_exact. Qed.
+Print Assumptions C13_generic_partial_exact.
+
+Theorem C13_declared_layer_sound : forall (w : wrapperT) (fa : fwd) (x q r : sigT) (c : Bind.call), valid_sig (params (w_sig w)) = true -> valid_sig (params x) = true -> NoDup (f_names fa) -> generic_partial w = Ok q -> forwards q x (f_n fa) (f_names fa) false false true true false = Ok r -> noncolliding c (params r) [params q; params x] = true -> disjointb (kws c) (f_names fa) = true -> accepts (params r) c = true -> accepts (params q) c = true /\ accepts (params x) (inner_call (params q) fa c) = true.
+Proof. exact @WrappersSound.declared_layer_sound. Qed.
+Print Assumptions C13_declared_layer_sound.
+
+Theorem C13_simple_layer_sound : forall (w : wrapperT) (fa : fwd) (x p q sR r : sigT) (c : Bind.call), valid_sig (params (w_sig w)) = true -> valid_sig (params x) = true -> NoDup (f_names fa) -> simple_P w fa x = Ok p -> simple_Q w p = Ok q -> simple_R q = Ok sR -> mask sR 1 [] SweepDefs2.nohide = Ok r -> noncolliding c (params r) [params sR] = true -> noncolliding c (params sR) [params call_sig; params q] = true -> noncolliding c (params q) [params p] = true -> noncolliding c (params p) [params (w_sig w); params x] = true -> disjointb (kws c) (f_names fa) = true -> accepts (params r) c = true -> mem n_self (kws c) = false /\ accepts (params (w_sig w)) (succ_call c) = true /\ accepts (params x) (inner_call (params (w_sig w)) fa (succ_call c)) = true.
+Proof. exact @WrappersSound.simple_layer_sound. Qed.
+Print Assumptions C13_simple_layer_sound.
+
+Theorem C13_stack_sound_sig : forall (ls : list layer) (s : sigT), Forall layer_ok ls -> valid_sig (params s) = true -> forall (c : Bind.call) (r : sigT), stack_side ls s c = true -> stack_sig ls s = Ok r -> accepts (params r) c = true -> stack_exec ls s c = true.
+Proof. exact @WrappersSound.stack_sound. Qed.
+Print Assumptions C13_stack_sound_sig.
+
+Theorem C13_stack_sound : forall (ls : list layer) (id : N) (s : sigT) (b : behaviour) (c : Bind.call) (r : sigT), Forall layer_ok ls -> valid_sig (params s) = true -> stack_side ls s c = true -> sig_of (stack ls (Plain id s b)) = Ok r -> accepts (params r) c = true -> stack_exec ls s c = true.
+Proof. exact @WrappersSound.C13_stack_sound. Qed.
+Print Assumptions C13_stack_sound.
+
+Theorem C13_comb_sound : forall (fs : list obj) (ss : list sigT) (r : sigT) (c : Bind.call), all_ok (map sig_of fs) = Ok ss -> RcValidN.all_valid ss -> role_consistent (map params (comb_self_sig :: ss)) = true -> sig_of (Comb fs) = Ok r -> noncolliding c (params r) (map params (comb_self_sig :: ss)) = true -> accepts (params r) c = true -> accepts (params comb_self_sig) c = true /\ Forall (fun s : sigT => accepts (params s) c = true) ss.
+Proof. exact @WrappersSound.comb_sound. Qed.
+Print Assumptions C13_comb_sound.
+
+Theorem C13_comb_member_stack_sound : forall (fs : list obj) (ss : list sigT) (r : sigT) (c : Bind.call) (ls : list layer) (id : N) (s : sigT) (b : behaviour) (m : sigT), all_ok (map sig_of fs) = Ok ss -> RcValidN.all_valid ss -> role_consistent (map params (comb_self_sig :: ss)) = true -> sig_of (Comb fs) = Ok r -> noncolliding c (params r) (map params (comb_self_sig :: ss)) = true -> accepts (params r) c = true -> In m ss -> sig_of (stack ls (Plain id s b)) = Ok m -> Forall layer_ok ls -> valid_sig (params s) = true -> stack_side ls s c = true -> stack_exec ls s c = true.
+Proof. exact @WrappersSound.comb_member_stack_sound. Qed.
+Print Assumptions C13_comb_member_stack_sound.
+
+Theorem C13_stack_sound_nofallback_refuted : exists (ls : list layer) (s : sigT) (c : Bind.call) (r : sigT), Forall layer_ok ls /\ valid_sig (params s) = true /\ stack_sig ls s = Ok r /\ accepts (params r) c = true /\ stack_exec ls s c = false.
+Proof. exact @WrappersSound.stack_sound_nofallback_refuted. Qed.
+Print Assumptions C13_stack_sound_nofallback_refuted.
+
+Theorem C13_declared_self_keyword_refuted : exists (ls : list layer) (s : sigT) (c : Bind.call) (r : sigT), Forall layer_ok ls /\ valid_sig (params s) = true /\ stack_sig ls s = Ok r /\ accepts (params r) c = true /\ stack_exec ls s c = false /\ stack_side ls s c = false.
+Proof. exact @WrappersSound.declared_self_keyword_refuted. Qed.
+Print Assumptions C13_declared_self_keyword_refuted.
+
+Theorem C13_simple_layer_self_refuted : exists (ls : list layer) (s : sigT), Forall layer_ok ls /\ valid_sig (params s) = true /\ stack_sig ls s = Err crash.
+Proof. exact @WrappersSound.simple_layer_self_refuted. Qed.
+Print Assumptions C13_simple_layer_self_refuted.
+
+Theorem C13_comb_inspect_refuted : exists (fs : list obj) (c : Bind.call) (r s : sigT), inspect_sig (Comb fs) = Ok r /\ accepts (params r) c = true /\ all_ok (map sig_of fs) = Ok [s] /\ accepts (params s) c = false.
+Proof. exact @WrappersSound.comb_inspect_refuted. Qed.
+Print Assumptions C13_comb_inspect_refuted.
+
